@@ -358,6 +358,21 @@ func (e *Env) resolveCallee(call *ast.CallExpr, st *State) callee {
 }
 
 func (e *Env) evalCallWith(call *ast.CallExpr, st *State, args []Value) Value {
+	if e.Top && !st.dead {
+		if ord, ok := e.C.callOrd[call.Pos()]; ok && e.C.Contract != nil && len(e.C.Contract.Ats) > 0 {
+			e.C.runAts(e, st, "before call "+ord, nil)
+		}
+	}
+	v := e.evalCallWith0(call, st, args)
+	if e.Top && !st.dead {
+		if ord, ok := e.C.callOrd[call.Pos()]; ok && e.C.Contract != nil && len(e.C.Contract.Ats) > 0 {
+			e.C.runAts(e, st, "call "+ord, nil)
+		}
+	}
+	return v
+}
+
+func (e *Env) evalCallWith0(call *ast.CallExpr, st *State, args []Value) Value {
 	c := e.C
 	if st.dead {
 		return e.deadValue(call)
@@ -819,6 +834,9 @@ func (e *Env) applyContract(call *ast.CallExpr, st *State, cl callee, ct *Contra
 		}
 	}
 	for _, en := range ct.Ensures {
+		if en.Local {
+			continue
+		}
 		st.assume(post.evalBool(en.Expr))
 	}
 	c.protoAfterContract(e, st, old, ct, post)
@@ -905,9 +923,7 @@ func (e *Env) modelCall(call *ast.CallExpr, st *State, cl callee, recvVal Value,
 			return IntC(0), true
 		}
 	case full == "errors.New" || full == "fmt.Errorf" || full == "github.com/syndtr/goleveldb/leveldb/errors.New":
-		r := c.freshVar("err", SInt)
-		st.assume(IGt(r, IntC(0)))
-		return r, true
+		return c.newRef(st, "err"), true
 	case full == "fmt.Sprintf" || full == "fmt.Sprint" || full == "fmt.Sprintln":
 		v, facts := c.freshValue(types.Typ[types.String], "str")
 		for _, f := range facts {
